@@ -47,6 +47,7 @@ def budget(tier):
 
 def setup(tier, build=True):
     if build:
+        bootstrap.build_rust()
         bootstrap.build_rustsim()
 
 
@@ -79,10 +80,23 @@ def gen_case(rng, tier, index):
     big = rng.random() < 0.6
     eps = rng.choice([1, 2])
     n_ex = rng.randrange(40, 90) * eps if big else rng.randrange(2, 9) * eps
-    hist = eread.read_hist(rng, formats=("fb", "npz"), n_examples=n_ex,
-                           eps=eps)
+    iface = rng.choice(["sync", "conc", "conc", "async", "rust"])
+    if iface == "rust":
+        # (file opens of the native reader are invisible at the Python seam:
+        # only "taking k examples terminates, and so does dropping the
+        # iterator" is decided here; its read-ahead is measured in the Rust
+        # harness family)
+        big = False
+        n_ex = rng.randrange(3, 12) * eps
+    hist = eread.read_hist(rng, formats=("fb",) if iface == "rust" else
+                           ("fb", "npz"), n_examples=n_ex, eps=eps,
+                           compression=rng.choice(dsgen.RUST_COMPRESSIONS)
+                           if iface == "rust" else None)
     return {"kind": "iface", "hist": hist,
-            "iface": rng.choice(["sync", "conc", "conc", "async"]),
+            "iface": iface,
+            # (Rust: take less than, about, or more than one epoch)
+            "k_epochs": rng.choice([0, 0, 1, 1, 2, 3]),
+            "k_extra": rng.randrange(0, 7),
             "repeat": rng.random() < 0.5,
             "shuffle": rng.choice([0, 0, 1, 3]),
             # ("s": as many readers as the split has shards, and around it)
@@ -206,6 +220,8 @@ def run_iface(case):
     h = hashlib.sha1()
     iface = case["iface"]
     bootstrap.sedpack_io()
+    if not eread.supports(iface, st):
+        iface = "sync"
     with eread.ReadEnv(hist, case["seed"]) as env:
         split = hist["splits"][0]
         table = env.shard_table(split)
@@ -226,10 +242,37 @@ def run_iface(case):
         random.seed(case["seed"])
         total = sum(len(x["ids"]) for x in table)
         k = case["k"] if case["repeat"] else min(case["k"], total)
-        rr = eread.run_reader(env, env.open(), iface, split, opts, k=k,
-                              seed=case["sched_seed"], policy=case["policy"],
-                              policy_param=0, choices=case.get("choices"),
-                              max_steps=150000, pause=case.get("pause", 0.0))
+        if iface == "rust":
+            k = case.get("k_epochs", 0) * total + case.get("k_extra", 1)
+            k = max(1, k if case["repeat"] else min(k, total))
+        if iface == "rust":
+            # native threads: a forked child under a watchdog (taking k
+            # examples and dropping the iterator must both come back)
+            ds_r = env.open()
+
+            def child():
+                r = eread.run_reader(env, ds_r, "rust", split, opts, k=k)
+                return (type(r.exc).__name__ if r.exc is not None else None,
+                        str(r.exc)[:200], r.items)
+
+            with env.fs.suspended():
+                status, val = eread.forked(child, 45.0)
+            rr = eread.ReaderRun()
+            if status == "hang":
+                rr.deadlock = ("no result within 45 s (forked child, "
+                               "observed by watchdog)")
+            elif status == "ok":
+                if val[0] is not None:
+                    rr.exc = RuntimeError(f"{val[0]}: {val[1]}")
+                rr.items = val[2]
+            else:
+                rr.exc = RuntimeError(str(val)[:200])
+        else:
+            rr = eread.run_reader(
+                env, env.open(), iface, split, opts, k=k,
+                seed=case["sched_seed"], policy=case["policy"],
+                policy_param=0, choices=case.get("choices"),
+                max_steps=150000, pause=case.get("pause", 0.0))
         ctx = (f"{iface} {st['fmt']} shards={n_shards} repeat={case['repeat']}"
                f" shuffle={case['shuffle']} fp={fp} take={k}")
         if rr.deadlock:
@@ -244,6 +287,8 @@ def run_iface(case):
         else:
             series = rr.opens_at_yield if iface != "async" else [
                 len(env.opens)]
+            if iface == "rust":
+                series = []  # native opens are not seen here
             kk = list(range(1, len(series) + 1)) if iface != "async" else [k]
             for nyield, opened in zip(kk, series):
                 needed = math.ceil(nyield / min_size)
@@ -256,6 +301,8 @@ def run_iface(case):
                     break
             # total opens after abandoning the iterator
             final = len(env.opens)
+            if iface == "rust":
+                final = 0
             if out["ok"] and final - math.ceil(k / min_size) > slack:
                 out.update(
                     ok=False, vclass="read_ahead_exceeds_bound",
@@ -372,7 +419,8 @@ def reach(agg):
     p = agg["probes"]
     for name in ("prim_shuffle", "prim_rr", "prim_pool", "prim_pool_rr",
                  "infinite_stream", "consumer_starved", "iface_sync",
-                 "iface_conc", "iface_async", "many_shards", "repeat_stream",
+                 "iface_conc", "iface_async", "iface_rust", "many_shards",
+                 "repeat_stream",
                  "rust_harness", "slow_async_consumer", "iface_tfdata",
                  "parallelism_equals_shard_count"):
         if not p.get(name):
